@@ -18,6 +18,10 @@ import (
 	"github.com/thushan/olla/internal/logger"
 )
 
+// ErrCircuitOpen marks an endpoint that was skipped because its circuit breaker is open.
+// The retry handler moves on to the next candidate without marking the endpoint unhealthy.
+var ErrCircuitOpen = errors.New("circuit breaker open")
+
 // RetryHandler manages connection failure recovery and endpoint failover
 type RetryHandler struct {
 	logger           logger.StyledLogger
@@ -85,6 +89,12 @@ func (h *RetryHandler) ExecuteWithRetry(
 
 		if lastErr == nil {
 			return nil
+		}
+
+		if errors.Is(lastErr, ErrCircuitOpen) {
+			// Nothing was sent: skip this endpoint and try the remaining candidates
+			availableEndpoints = h.removeFailedEndpoint(availableEndpoints, endpoint)
+			continue
 		}
 
 		if !IsConnectionError(lastErr) {
